@@ -963,8 +963,17 @@ func (c *Candidates) LoadStakes() {
 
 // loadStakes loads all stakes of candidates
 func (c *Candidates) loadStakes() {
-	c.totalStakes.SetInt64(0)
+	// block execution registers new public keys under the lock while the API
+	// loads stakes: iterate over a copy taken under the lock
+	c.lock.RLock()
+	pubkeys := make([]types.Pubkey, 0, len(c.pubKeyIDs))
 	for pubkey := range c.pubKeyIDs {
+		pubkeys = append(pubkeys, pubkey)
+	}
+	c.lock.RUnlock()
+
+	c.totalStakes.SetInt64(0)
+	for _, pubkey := range pubkeys {
 		c.totalStakes.Add(c.totalStakes, c.LoadStakesOfCandidate(pubkey))
 	}
 }
